@@ -2,6 +2,7 @@ mod exec;
 mod gen;
 mod hist;
 mod oracle;
+mod oracle_p;
 mod oracle_ttl;
 mod plan;
 mod runner;
